@@ -61,18 +61,23 @@ FM_TGT2 = ["S", "AIS", "AMk", "MIkS", "MIkN", "Xk", "Xj", "Xkj", "AI", "all"]
 FM_VARS2 = ["nilB", "nokey", "Xnil", "Xstr", "AXint"]
 
 
-def fm_cfg(maxmaps, src, tgt, varset):
-    return ("CONSTANTS\n  MaxMaps = %d\n  SrcNames = %s\n  TgtNames = %s\n  VarSet = %s\nINIT GenInit\nNEXT GenNext\n"
+def fm_cfg(maxmaps, src, tgt, varset, kind="struct"):
+    return ("CONSTANTS\n  SrcKind = \"" + kind + "\"\n  MaxMaps = %d\n  SrcNames = %s\n  TgtNames = %s\n  VarSet = %s\nINIT GenInit\nNEXT GenNext\n"
             "INVARIANT FixedDesignHolds\nINVARIANT Emit\nCHECK_DEADLOCK FALSE\n" % (maxmaps, _q(src), _q(tgt), _q(varset)))
 
 
-def fm_family(name, maxmaps, src, tgt, varset, timeout=900, simulate=None, depth=None):
+FM_MAPSRC = ["ms", "mt", "mn", "miS"]
+FM_MAPTGT = ["S", "N", "AIS", "AMk", "MIkS", "MIkN", "Xk", "Xkj"]
+
+
+def fm_family(name, maxmaps, src, tgt, varset, timeout=900, simulate=None, depth=None, kind="struct"):
     cfg = "fm_%s.cfg" % name
-    run = vlib.tlc("FieldMap", cfg, files={cfg: fm_cfg(maxmaps, src, tgt, varset)}, workers=4, timeout=timeout, heap="6g",
+    run = vlib.tlc("FieldMap", cfg, files={cfg: fm_cfg(maxmaps, src, tgt, varset, kind)}, workers=4, timeout=timeout, heap="6g",
                    simulate=simulate, depth=depth, seed=vlib.SEED if simulate else None)
     cases = _cases_of(run, "FieldMap model check / generation " + name)
     for c in cases:
         c["fam"] = name
+        c["src"] = kind
     flats = {t[0]: json.loads(t[1]) for t in run.tagged("SRCFLAT") if len(t) == 2}
     return cases, run, flats
 
@@ -82,7 +87,7 @@ def fm_decorate(cases, rnd, ri, rs, twice_frac):
         c["id"] = "%s-%d" % (c["fam"], i)
         whole = any(len(m["t"]) == 0 for g in c["decl"] for m in g["maps"])
         # the pointer flavour cannot take a Dst VALUE as its whole input (statically rejected): value flavour for those
-        c["tp"] = "val" if whole or rnd.random() < 0.6 else "ptr"
+        c["tp"] = "map" if c.get("src") == "map" else "val" if whole or rnd.random() < 0.6 else "ptr"
         # a second Compile is only tried where no run-time checker is involved: in stream mode both defects end in the same panic
         c["twice"] = (not c.get("chk")) and rnd.random() < twice_frac
         c["ri"], c["rs"] = ri, rs
@@ -98,9 +103,9 @@ def fm_check_mirror(lines, flats):
     seen = set()
     for ln in lines:
         d = json.loads(ln)
-        if d["var"] in seen or not d["outs"]:
+        if (d["tp"], d["var"]) in seen or not d["outs"] or d["var"] not in flats:
             continue
-        seen.add(d["var"])
+        seen.add((d["tp"], d["var"]))
         o = d["outs"][0]
         want = {(p, k, v.replace("p1:", o["pred"] + ":")) for (p, k, v) in fm_entryset(flats[d["var"]])}
         got = fm_entryset(o["flat"])
@@ -117,10 +122,23 @@ def fm_first_msg(line, scope, kinds):
     return ""
 
 
+def _repo_fixed():
+    try:
+        return any(ln.startswith("fixed:") and "property=C15" in ln for ln in open(os.path.join(vlib.ROOT, "known_findings.txt")))
+    except OSError:
+        return False
+
+
+def fm_pred(case):
+    """verdict the model predicts: for the code as first seen, or with the repairs recorded as fixed: in known_findings.txt"""
+    key = ("predf" if _repo_fixed() else "pred") + ("2" if case.get("twice") else "")
+    return case.get(key, [])
+
+
 def fm_classify(case, reason, line):
     """root-cause signature of a rejected case: known defects keep their own signature, anything else stays distinguishable"""
     scope, r = reason.split(":", 1)
-    model = set(case.get("pred2" if case.get("twice") else "pred", []))
+    model = set(fm_pred(case))
     if r == "overlap-accepted":
         # explained by the literal model of checkAndAddMappedPath (sub-map overwrite / no trace of the whole-input path)?
         return "overlap-order" if "overlap-accepted" in model else "overlap-accepted-unmodelled"
@@ -142,6 +160,8 @@ def fm_classify(case, reason, line):
             # a value that its own run-time checker would have refused reached the converter: the checker tested it against the
             # LAST mapping's target type
             return "stale-closure"
+        if "runtime check failed for mapping" in msg and "field[<nil>]" in msg and case.get("var") == "sparse":
+            return "checker-on-key-absent-from-chunk"
         if "runtime check failed for mapping" in msg:
             return "stale-closure"
         if "convertTo failed when must succeed" in msg and "not exported" in msg:
@@ -149,6 +169,8 @@ def fm_classify(case, reason, line):
         if "Set using unaddressable value" in msg:
             return "map-elem-unaddressable"
         return "%s-%s-%s" % (scope, r, hashlib.sha1(msg[:60].encode()).hexdigest()[:6])
+    if r == "wrong-input" and case.get("var") == "sparse":
+        return "wrong-input-sparse-chunks"
     if r == "wrong-input" and any(len(m["t"]) == 4 and m["t"][0] == "MM" for g in case["decl"] for m in g["maps"]):
         return "map-elem-nested-struct-lost-update"
     if r == "missing-source-handled-differently":
@@ -179,14 +201,17 @@ def c15(tier, repo=None):
     if tier == "quick":
         fams = [("m1", 1, FM_SRC, FM_TGT, FM_VARS, {}),
                 ("m3s", 3, ["S", "AI"], ["AIS", "AMk", "AI", "A"], [], {}),
+                # map[string]any predecessor, stream-native, dense or ONE KEY PER CHUNK; every mapping needs the run-time checker
+                ("mm", 2, FM_MAPSRC, FM_MAPTGT, [], {"kind": "map"}),
                 ("m2", 2, FM_SRC2, FM_TGT2, FM_VARS2, {})]
-        limit = {"m2": 2200}
+        limit = {"m2": 2000, "mm": 900}
         ri, rs = 5, 3
     else:
         fams = [("m1", 1, FM_SRC, FM_TGT, FM_VARS, {}),
                 ("m2", 2, FM_SRC, FM_TGT, FM_VARS, {"timeout": 1500}),
+                ("mm", 3, FM_MAPSRC, FM_MAPTGT, [], {"kind": "map", "timeout": 1500}),
                 ("m3", 3, ["S", "AIS", "AX", "N", "AI"], ["AIS", "AMk", "AI", "A", "MIkS", "MIkN", "Xk", "Xkj", "all"], ["AXint"], {"timeout": 1500})]
-        limit = {"m2": 40000, "m3": 30000}
+        limit = {"m2": 40000, "m3": 30000, "mm": 15000}
         ri, rs = 5, 5
     cases, gen_stats, flats = [], [], {}
     states = trans = 0
@@ -249,13 +274,13 @@ def c15(tier, repo=None):
         real.setdefault(cid, set()).add(reason.split(":", 1)[1])
     drift = {}
     for c in cases:
-        p = set(c["pred2"] if c["twice"] else c["pred"])
+        p = set(fm_pred(c))
         r = real.get(c["id"], set())
         if p != r:
             k = "model=%s real=%s" % (sorted(p), sorted(r))
             drift[k] = drift.get(k, 0) + 1
     for k, v in sorted(drift.items(), key=lambda kv: -kv[1])[:8]:
-        log("  DRIFT (model of the unrepaired code vs real verdict) %s: %d cases" % (k, v))
+        log("  DRIFT (model of the code vs real verdict) %s: %d cases" % (k, v))
     code, n_new, n_known = verdict.finish()
     for sig, k in sorted(sig_count.items()):
         log("  rejected, reproduced: sig=%s %d cases" % (sig, k))
